@@ -21,6 +21,7 @@ mod c17;
 mod c18;
 mod c19;
 mod c20;
+mod c20g;
 mod fault;
 mod plonkrun;
 mod rec;
@@ -95,6 +96,7 @@ fn main() {
         "c18" => c18::main(rest),
         "c19" => c19::main(rest),
         "c20" => c20::main(rest),
+        "c20g" => c20g::main(rest),
         "randshape" => {
             let seed: u64 = rest[0].parse().unwrap();
             println!("{}", serde_json::to_string(&shapes::random_shape(seed)).unwrap());
